@@ -146,6 +146,10 @@ def _conv_path(e):
         return ("sym", e[2])
     if e[0] == "phi" and isinstance(e[-1], str) and e[-1] and any(a[0] == "arg" for a in e[1]):
         return ("sym", e[-1])      # a parameter that is mutated through (`&mut self`): still that parameter
+    if e[0] == "phi":
+        real = [a for a in e[1] if a[0] != "mutated"]
+        if len(real) == 1:
+            return _conv_path(real[0])      # a `&mut` temporary that is written through: still the place it borrows
     if e[0] in ("ref", "deref"):
         return _conv_path(e[1])
     if e[0] == "call" and len(e[2]) == 1 and re.search(r"Deref>::deref$|DerefMut>::deref_mut$|::as_slice$|::as_str$|AsRef<.*>>::as_ref$|Borrow<.*>>::borrow$|::as_mut_slice$", str(e[1])):
@@ -157,7 +161,10 @@ def _conv_path(e):
 
 
 def run_fn(fn, facts, model=None, cut_back_edges=True, presets=None, **kw):
-    if presets is None and fn.j.get("alias_of"):
+    if presets is None and (fn.j.get("alias_of") or (fn.kind != "Closure" and not fn.name.startswith("<") and re.search(r"::[A-Z]\w*(::<[^>]*>)?::\w+$", fn.name)
+                                                      and fn.argc >= 1 and "self" not in fn.names().values())):
+        # a moved function, or a method-like function without a receiver (an associated fn that takes the field it works on):
+        # parameters every call site fills with the same `self.<path>` are analysed under that name
         presets = auto_presets(facts, fn)
     kw.setdefault("desugar", DESUGAR_DEFAULT)
     ex = S.Engine(fn, facts, model or BaseModel(), cut_edges=fn.back_edges() if cut_back_edges else (), **kw)
@@ -301,7 +308,14 @@ def field_writers(facts, adt_suffix, field):
                     if cand:
                         base = cand[0]
                 if S.is_unknown_helper(base):
-                    # a helper the rules do not know by name: the write happens on behalf of its callers
+                    # a helper the rules do not know by name: the write happens on behalf of its callers — unless a known
+                    # function does nothing but hand its argument to the helper (`fn from(nfa) { Self::from_nfa(nfa) }`): then
+                    # the helper *is* the body of that function, wherever else it is called from
+                    bodies_of = helper_is_body_of(facts, base)
+                    if bodies_of:
+                        for k_ in bodies_of:
+                            out.setdefault(k_.name, []).extend(sites)
+                        continue
                     for o, b2 in owners(facts, base):
                         out.setdefault(o.name, []).extend([(b2, 0, "via " + M.short_name(fn.name))])
                 else:
@@ -516,7 +530,9 @@ def faithful_impl(F, tname, trait):
         if short == "Ord":
             want = {"cmpself.%s, other.%s" % (f0, f0), "Ord::cmpself.%s, other.%s" % (f0, f0)}
         else:
-            want = {"partial_cmpself.%s, other.%s" % (f0, f0), "Somecmpself.%s, other.%s" % (f0, f0), "PartialOrd::partial_cmpself.%s, other.%s" % (f0, f0)}
+            # (`Some(x)` prints as x where the engine knows the variant: `Some(self.cmp(other))` with cmp inlined)
+            want = {"partial_cmpself.%s, other.%s" % (f0, f0), "Somecmpself.%s, other.%s" % (f0, f0), "PartialOrd::partial_cmpself.%s, other.%s" % (f0, f0),
+                    "cmpself.%s, other.%s" % (f0, f0), "SomeOrd::cmpself.%s, other.%s" % (f0, f0), "Ord::cmpself.%s, other.%s" % (f0, f0)}
         return (len(rets) == 1 and rets[0] in want), "returns %s" % rets
     except Exception as e:
         return False, "not understood (%s)" % type(e).__name__
@@ -803,6 +819,71 @@ def list_fill(ex, paths, fn, value, elem_ty_rx=None):
 
 
 COPY_RX = r"<impl \[.*\]>::(to_vec|to_owned|into_vec)$|borrow::ToOwned>::to_owned$|clone::Clone>::clone$|convert::(Into|From)<.*>>::(into|from)$|Vec::<.*>::as_slice$|Deref>::deref$|AsRef<.*>>::as_ref$|Borrow<.*>>::borrow$|FromIterator<.*>>::from_iter(::<.*>)?$|Iterator>::(cloned|copied|collect)(::<.*>)?$|<impl \[.*\]>::iter$|IntoIterator>::into_iter$"
+
+
+def helper_is_body_of(facts, base):
+    """Known functions that do nothing but hand their parameters to the unknown helper `base` and return its result: the helper
+    is then the body of those functions moved out (`fn from(nfa) -> Self { Self::from_nfa(nfa) }`), whoever else calls it."""
+    memo = facts.__dict__.setdefault("_body_of", {})
+    if base.key not in memo:
+        out = []
+        for k_ in facts.fns.values():
+            if k_ is base or k_.kind == "Closure" or S.is_unknown_helper(k_) or k_.j.get("exp"):
+                continue
+            if any(call_is(t_, base) for b_, t_ in k_.calls()) and delegates_mir(k_, base):
+                out.append(k_)
+        memo[base.key] = out
+    return memo[base.key]
+
+
+def fn_items_of(F, fn):
+    """Functions of the crate the rules do not know that `fn` hands around as *values* (`.map(indexed_pattern)`): a captureless
+    closure written as a private fn.  They are analysed wherever the closures of `fn` are."""
+    out = []
+    def visit(o):
+        if isinstance(o, dict) and o.get("k") == "const" and o.get("fn") in F.fns:
+            g = F.fns[o["fn"]]
+            if S.is_unknown_helper(g) and g not in out:
+                out.append(g)
+    for bb in fn.reachable():
+        for st in fn.blocks[bb]["stmts"]:
+            if st["k"] == "assign":
+                for o in M.rvalue_operands(st["rv"]):
+                    visit(o)
+        t = fn.term(bb)
+        if t["k"] == "call":
+            for a in t["args"]:
+                visit(a)
+    return out
+
+
+def delegates_mir(fn, other):
+    """`fn` consists of one call of `other` with its own parameters (possibly copied) as arguments, whose result is returned."""
+    cs = list(fn.calls())
+    oc = [(bb, t) for bb, t in cs if call_is(t, other)]
+    rest = [t for bb, t in cs if not call_is(t, other) and not re.search(COPY_RX, M.call_name(t))]
+    if len(oc) != 1 or rest:
+        return False
+    bb, t = oc[0]
+    if t["dest"]["pj"]:
+        return False
+    l = t["dest"]["l"]
+    if l != 0:
+        moved = [s_ for b_, i_, s_ in fn.assigns() if s_["p"]["l"] == 0 and not s_["p"]["pj"] and s_["rv"]["k"] == "use" and s_["rv"]["op"].get("p", {}).get("l") == l]
+        if not moved:
+            return False
+    pv = M.Prov(fn)
+    for a in t["args"]:
+        e = pv.operand(a)
+        n_ = 0
+        while e[0] in ("ref", "deref") or (e[0] == "call" and len(e[2]) == 1 and re.search(COPY_RX, str(e[1]))):
+            e = e[1] if e[0] in ("ref", "deref") else e[2][0]
+            n_ += 1
+            if n_ > 8:
+                return False
+        if e[0] not in ("arg", "const"):
+            return False
+    return True
 
 
 def delegates_to(F, fn, other):
